@@ -76,7 +76,11 @@ def parseUsizeCli (s : List Char) : Option Nat :=
   let body := match s with
     | '+' :: r => r
     | r => r
-  if body.isEmpty || !(body.all Json.isDigit) then none else some (Json.digitsToNat body)
+  if body.isEmpty || !(body.all Json.isDigit) then none
+  else
+    -- (a number that does not fit `usize`, 64 bits, is a parse error)
+    let n := Json.digitsToNat body
+    if n < 18446744073709551616 then some n else none
 
 def lowerAscii (s : List Char) : List Char := s.map (fun c => if 'A' ≤ c ∧ c ≤ 'Z' then Char.ofNat (c.toNat + 32) else c)
 
